@@ -107,6 +107,9 @@ def comprehension_over_pipe(interp, node, env, pipe):
     if len(node.generators) != 1:
         raise Unsupported('nested comprehension over an unbounded range pipeline', node)
     g = node.generators[0]
+    # the comprehension is materialised lazily (per element): freeze the local bindings now, as an
+    # eager python comprehension would have used them
+    env = Env(dict(env.vars), env.parent, env.module)
 
     def f(i, v):
         cenv = Env({}, env, env.module)
